@@ -3,7 +3,7 @@
    (linter.py:40-97 usage loop + report loop over SourceScope.all_names; REF = [rule], the property text).
 
    FULL STATEMENT (false on the pinned tree, see C10_full_refuted):
-     forall bs reads i b, nth_error bs i = Some b -> wf b = true -> (rows keyed) -> no_locals_read reads ->
+     forall bs reads i b, nth_error bs i = Some b -> wf b = true -> (rows keyed) -> no_locals_in_scope b reads ->
        unread b reads ->
        forall x, In (i, x) (lint_unused bs reads) <-> exists w, rule b false = Some w /\ x = mk_rep b w.
    It is proved below with the extra hypothesis [in_domain b = true] (C10_partial): the binding is not an
@@ -27,8 +27,8 @@ Print Assumptions C10_report_is_rule.
    loaded is never marked used and never enters qualified_imports - unless `locals` is read. *)
 Theorem C10_unread_not_used : forall bs reads i b,
   nth_error bs i = Some b ->
-  (forall r, In r reads -> row_keyed bs r /\ locals_keyed r) ->
-  no_locals_read reads ->
+  (forall r, In r reads -> row_keyed bs r /\ locals_keyed r /\ scope_attr_ok bs r) ->
+  no_locals_in_scope b reads ->
   unread b reads ->
   mem_nat i (fst (usage reads)) = false /\ mem_name (b_name b) (snd (usage reads)) = false.
 Proof. exact unread_not_used. Qed.
@@ -39,8 +39,8 @@ Print Assumptions C10_unread_not_used.
 Theorem C10_partial : forall bs reads i b,
   nth_error bs i = Some b ->
   wf b = true -> in_domain b = true ->
-  (forall r, In r reads -> row_keyed bs r /\ locals_keyed r) ->
-  no_locals_read reads ->
+  (forall r, In r reads -> row_keyed bs r /\ locals_keyed r /\ scope_attr_ok bs r) ->
+  no_locals_in_scope b reads ->
   unread b reads ->
   forall x, In (i, x) (lint_unused bs reads) <-> exists w, rule b false = Some w /\ x = mk_rep b w.
 Proof. exact unread_reported_iff_rule. Qed.
@@ -86,8 +86,8 @@ Print Assumptions C10_code_kind.
 (* The full statement (without in_domain) is false: open finding K3-C10, `global os` / `import os` at
    module level - an import at module level, never read, that the rule reports and supp does not. *)
 Theorem C10_full_refuted : exists bs reads i b,
-  nth_error bs i = Some b /\ wf b = true /\ unread b reads /\ no_locals_read reads /\
-  (forall r, In r reads -> row_keyed bs r /\ locals_keyed r) /\
+  nth_error bs i = Some b /\ wf b = true /\ unread b reads /\ no_locals_in_scope b reads /\
+  (forall r, In r reads -> row_keyed bs r /\ locals_keyed r /\ scope_attr_ok bs r) /\
   rule b false = Some W02 /\ ~ (exists x, In (i, x) (lint_unused bs reads)).
 Proof.
   exists [k3_binding], [], 0, k3_binding.
@@ -101,7 +101,7 @@ Print Assumptions C10_full_refuted.
 (* Second shape of the same finding: `def f(): import os; global os` (CPython accepts an import before
    the declaration): os is a global, the rule reports nothing, supp reports W01 'Unused name: os'. *)
 Theorem C10_full_refuted_late_global : exists bs reads i b x,
-  nth_error bs i = Some b /\ wf b = true /\ unread b reads /\ no_locals_read reads /\
+  nth_error bs i = Some b /\ wf b = true /\ unread b reads /\ no_locals_in_scope b reads /\
   rule b false = None /\ In (i, x) (lint_unused bs reads).
 Proof.
   exists [k3b_binding], [], 0, k3b_binding, (mk_rep k3b_binding W01).
@@ -111,30 +111,50 @@ Proof.
 Qed.
 Print Assumptions C10_full_refuted_late_global.
 
-(* Non-vacuity: a module with `import os` (unread), `def f(a, _b): c = 1; return a` (a read once),
-   `class K: def m(self, p): pass`.  Bindings in all_names order; the read of `a` finds row [a]. *)
+(* Non-vacuity: the module
+     import os                      (scope 0; os never read)
+     def f(a, _b): c = 1; return a  (scope 1; a read once, row [a])
+     class K:                       (scope 2)
+         def m(self, p): pass       (scope 3; self omitted)
+     def g(): d = 1; return locals()  (scope 4: locals() marks d and nothing outside g)
+   Bindings in all_names order.  The hypotheses hold; os, c, p are never read and have no locals() call
+   in their own scope; exactly os (W02) and c (W01) are reported. *)
 Example C10_example :
-  let os_ := mkB KImport SModule None [111;115]%N [111;115]%N false false 1 7 in
-  let f_ := mkB KDef SModule None [102]%N [] false false 2 4 in
-  let k_ := mkB KClass SModule None [75]%N [] false false 5 6 in
-  let a_ := mkB KParam SFunction (Some SModule) [97]%N [] false false 2 6 in
-  let ub := mkB KParam SFunction (Some SModule) [95;98]%N [] false false 2 9 in
-  let c_ := mkB KAssign SFunction (Some SModule) [99]%N [] false false 3 4 in
-  let m_ := mkB KDef SClass (Some SModule) [109]%N [] false false 6 8 in
-  let p_ := mkB KParam SFunction (Some SClass) [112]%N [] false false 6 16 in
-  let bs := [os_; f_; k_; a_; ub; c_; m_; p_] in
-  let reads := [mkRd [97]%N (Some [ABind 3]) false false []] in
-  (forall r, In r reads -> row_keyed bs r /\ locals_keyed r) /\ no_locals_read reads /\
-  unread os_ reads /\ unread c_ reads /\ unread p_ reads /\
-  lint_unused bs reads =
-    [(0, mk_rep os_ W02); (5, mk_rep c_ W01)].
+  let os_ := mkB KImport SModule None [111;115]%N [111;115]%N false false 0 1 7 in
+  let f_ := mkB KDef SModule None [102]%N [] false false 0 2 4 in
+  let k_ := mkB KClass SModule None [75]%N [] false false 0 5 6 in
+  let g_ := mkB KDef SModule None [103]%N [] false false 0 7 4 in
+  let a_ := mkB KParam SFunction (Some SModule) [97]%N [] false false 1 2 6 in
+  let ub := mkB KParam SFunction (Some SModule) [95;98]%N [] false false 1 2 9 in
+  let c_ := mkB KAssign SFunction (Some SModule) [99]%N [] false false 1 3 4 in
+  let m_ := mkB KDef SClass (Some SModule) [109]%N [] false false 2 6 8 in
+  let p_ := mkB KParam SFunction (Some SClass) [112]%N [] false false 3 6 16 in
+  let d_ := mkB KAssign SFunction (Some SModule) [100]%N [] false false 4 8 4 in
+  let bs := [os_; f_; k_; g_; a_; ub; c_; m_; p_; d_] in
+  let reads := [mkRd [97]%N 1 (Some [ABind 4]) false false [];
+                mkRd locals_name 4 (Some [AOther]) false true
+                  [(Some 0, [ABind 0]); (Some 0, [ABind 1]); (Some 0, [ABind 2]); (Some 0, [ABind 3]);
+                   (Some 4, [ABind 9]); (None, [AOther])]] in
+  (forall r, In r reads -> row_keyed bs r /\ locals_keyed r /\ scope_attr_ok bs r) /\
+  (unread os_ reads /\ no_locals_in_scope os_ reads) /\
+  (unread c_ reads /\ no_locals_in_scope c_ reads) /\
+  (unread p_ reads /\ no_locals_in_scope p_ reads) /\
+  lint_unused bs reads = [(0, mk_rep os_ W02); (6, mk_rep c_ W01)].
 Proof.
   cbv zeta. split.
-  - intros r [<-|[]]. split.
+  - intros r [<-|[<-|[]]]; (split; [|split]).
     + intros alts i b H. injection H as <-. intros [Hi|[]]. injection Hi as <-.
       simpl. intros Hb. injection Hb as <-. reflexivity.
     + intros H. discriminate H.
-  - split; [intros r [<-|[]]; discriminate|].
-    repeat (split; [intros r [<-|[]]; discriminate|]).
+    + intros s alts i b [].
+    + intros alts i b H. injection H as <-. intros [Hi|[]]. discriminate Hi.
+    + intros _. reflexivity.
+    + intros s alts i b Hin Ha Hb. simpl in Hin.
+      repeat (destruct Hin as [Hin|Hin];
+              [try discriminate Hin; injection Hin as <- <-; destruct Ha as [Ha|[]];
+               try discriminate Ha; injection Ha as <-; simpl in Hb; injection Hb as <-; reflexivity|]).
+      destruct Hin.
+  - repeat (split; [split; [intros r [<-|[<-|[]]]; discriminate
+                           | intros r [<-|[<-|[]]] H; try discriminate H; simpl; discriminate]|]).
     vm_compute. reflexivity.
 Qed.
